@@ -179,8 +179,13 @@ def _delay(x):
     time.sleep(((hash(repr(x)) % 11) / 11.0) * 0.003)
 
 
+def _slow_delay(x):
+    time.sleep(0.3)          # batches that take longer than a second (gathering loops with time slices)
+
+
 def real_pool_case(args):
-    mode, workers, K, seed = args
+    mode, workers, K, seed = args[:4]
+    slow = len(args) > 4 and args[4]
     import numpy as np
     T, A, PoolProbe, Cfg = probe_env()
     from pyvolutionary.enums import ModeSolver
@@ -193,7 +198,7 @@ def real_pool_case(args):
         fd, path = tempfile.mkstemp(prefix="pool-", suffix=".ndjson", dir=str(WORK / "tmp"))
         os.close(fd)
     T.REC.reset(path)
-    T.REC.delay = _delay
+    T.REC.delay = _slow_delay if slow else _delay
     np.random.seed(seed)
     try:
         pop = o._generate_agents(K)
@@ -301,6 +306,7 @@ def main(chk: Check):
             for K in ([1, 2, 3, 5, 8, 12] if not thorough else list(range(1, 13))):
                 for _ in range(3 if thorough else 1):
                     cases.append((mode, workers, K, rng.randrange(2 ** 31)))
+    cases += [("thread", 2, 9, 5, True), ("process", 2, 9, 6, True)]
     with cf.ProcessPoolExecutor(6) as ex:
         records += list(ex.map(real_pool_case, cases))
     for k, r in enumerate(records):
